@@ -17,8 +17,15 @@ package bmatch
 //@ pure func matchall(m LogMatcher, r *base.LogRecord) bool :=
 //@     forall j int :: 0 <= j && j < len(m.fieldMatches) ==> vmatch(ref(m.fieldMatches[j].match), r.Fields[m.fieldMatches[j].locator])
 
+// matches(m, f, a): opaque name for matchall over the field slice f with contents a (callers reason with the name; the
+// definition is proved in Match and not exported)
+//@ pure func matches(m LogMatcher, f []string, a int) bool
+//@ pure func matched(m LogMatcher, r *base.LogRecord) bool := matches(m, r.Fields, arr(r.Fields))
+
 //@ func (m LogMatcher) Match(record *base.LogRecord) bool
 //@   requires record != nil && validmatcher(m, record)
-//@   ensures  result <==> matchall(m, record)
+//@   define   matched(m, record) <==> matchall(m, record)
+//@   ensures  result <==> matched(m, record)
+//@   ensures[!definition] result <==> matchall(m, record)
 //@   loop 1: invariant -1 <= rangeindex && rangeindex < len(m.fieldMatches) && fields === record.Fields
 //@   loop 1: invariant forall j int :: 0 <= j && j <= rangeindex ==> vmatch(ref(m.fieldMatches[j].match), record.Fields[m.fieldMatches[j].locator])
